@@ -74,7 +74,7 @@ pub const WIN_WRITES: u16 = (1 << 1) | (1 << 2);
 pub const WIN_OTHER: u16 = 0x1fff & !(WIN_LOADS | WIN_WRITES | (1 << 5));
 /// loads/stores/RMWs on usize cells and pointer cells, locks, notify, yield - everything except
 /// the condvar wait itself (which has its own hook)
-pub const MEM_KINDS: u16 = 0x0e07;
+pub const MEM_KINDS: u16 = 0x0fdf;
 
 pub fn configure(max_depth: u8, budget: u8, kinds: u16, per_site: u8) {
     // smoke mode (--cfg mq_smoke, development only): no injection at all, i.e. every scenario
